@@ -1,0 +1,309 @@
+//! Verification hooks (only compiled with `--cfg gamedig_verif`).
+//!
+//! * a thread-local *scripted transport*: when a script is installed, every
+//!   `UdpSocketImpl` / `TcpSocketImpl` created on this thread takes its
+//!   replies from the script instead of the network and every operation is
+//!   logged;
+//! * public wrappers around crate-private items (the packet reader, the
+//!   string decoders, a few helpers) so that an external harness can drive
+//!   them directly.
+//!
+//! With no script installed every hook returns `None` and the real socket
+//! code runs unchanged.
+
+use crate::{
+    buffer::{Buffer, StringDecoder, Utf16Decoder, Utf8Decoder, Utf8LengthPrefixedDecoder},
+    GDErrorKind,
+    GDResult,
+};
+use byteorder::{BigEndian, LittleEndian};
+use std::{cell::RefCell, collections::VecDeque, net::SocketAddr};
+
+/// One thing the scripted peer does when the client waits for data.
+#[derive(Debug, Clone)]
+pub enum Delivery {
+    /// A datagram (UDP) or everything the peer writes before closing (TCP).
+    Data(Vec<u8>),
+    /// Nothing arrives: the read times out.
+    Silence,
+}
+
+/// What happens to the n-th socket the client opens.
+#[derive(Debug, Clone)]
+pub enum ConnScript {
+    /// Creating the socket fails (TCP: connection refused, UDP: bind error).
+    Refused,
+    /// The socket opens; receives take these deliveries in order, then
+    /// silence (UDP) / end of stream (TCP) for ever.
+    Open(Vec<Delivery>),
+}
+
+#[derive(Debug, Clone, Default)]
+pub struct Script {
+    /// Per socket, in order of creation. Sockets opened beyond the end of the
+    /// list behave as `Open(vec![])`.
+    pub conns: Vec<ConnScript>,
+    /// One flag per `send` call in order; `true` makes that send fail.
+    /// Sends beyond the end of the list succeed.
+    pub send_faults: Vec<bool>,
+}
+
+#[derive(Debug, Clone, PartialEq, Eq)]
+pub enum Event {
+    Open {
+        conn: usize,
+        tcp: bool,
+        addr: SocketAddr,
+        refused: bool,
+    },
+    Send {
+        conn: usize,
+        addr: SocketAddr,
+        data: Vec<u8>,
+        failed: bool,
+    },
+    Recv {
+        conn: usize,
+        size: Option<usize>,
+        /// `None`: timed out.
+        got: Option<usize>,
+    },
+}
+
+struct State {
+    conns: VecDeque<ConnScript>,
+    open: Vec<VecDeque<Delivery>>,
+    send_faults: VecDeque<bool>,
+    log: Vec<Event>,
+    /// Upper bound on logged operations; a query exceeding it is considered
+    /// hung and is stopped with a panic carrying this marker.
+    op_budget: usize,
+}
+
+thread_local! {
+    static STATE: RefCell<Option<State>> = const { RefCell::new(None) };
+}
+
+thread_local! {
+    static LISTENER: std::net::TcpListener =
+        std::net::TcpListener::bind("127.0.0.1:0").expect("verif: loopback listener");
+}
+
+/// `TcpSocketImpl` owns a `TcpStream`; under a script it is never used, but a
+/// value is needed, so connect one to a private loopback listener.
+pub(crate) fn placeholder_stream() -> std::net::TcpStream {
+    LISTENER.with(|l| {
+        let s = std::net::TcpStream::connect(l.local_addr().expect("verif: addr")).expect("verif: connect");
+        let _ = l.accept();
+        s
+    })
+}
+
+pub const HANG_MARKER: &str = "gamedig_verif: operation budget exhausted (hang)";
+
+/// Install a script on this thread. Replaces any previous one.
+pub fn install(script: Script, op_budget: usize) {
+    STATE.with(|s| {
+        *s.borrow_mut() = Some(State {
+            conns: script.conns.into(),
+            open: Vec::new(),
+            send_faults: script.send_faults.into(),
+            log: Vec::new(),
+            op_budget,
+        });
+    });
+}
+
+/// Remove the script and return the log of everything the client did.
+pub fn uninstall() -> Vec<Event> {
+    STATE.with(|s| s.borrow_mut().take().map(|st| st.log).unwrap_or_default())
+}
+
+/// Number of scripted deliveries not yet consumed (over all sockets).
+pub fn undelivered() -> usize {
+    STATE.with(|s| {
+        s.borrow().as_ref().map_or(0, |st| {
+            st.open.iter().map(VecDeque::len).sum::<usize>()
+                + st.conns
+                    .iter()
+                    .map(|c| {
+                        match c {
+                            ConnScript::Open(d) => d.len(),
+                            ConnScript::Refused => 0,
+                        }
+                    })
+                    .sum::<usize>()
+        })
+    })
+}
+
+fn spend(st: &mut State) {
+    if st.log.len() >= st.op_budget {
+        panic!("{}", HANG_MARKER);
+    }
+}
+
+/// Called at the top of `Socket::new`. `None`: no script installed.
+pub(crate) fn on_new(tcp: bool, addr: &SocketAddr) -> Option<Result<usize, GDErrorKind>> {
+    STATE.with(|s| {
+        let mut guard = s.borrow_mut();
+        let st = guard.as_mut()?;
+        spend(st);
+        let conn = st.open.len();
+        let script = st.conns.pop_front().unwrap_or(ConnScript::Open(Vec::new()));
+        Some(match script {
+            ConnScript::Refused => {
+                st.log.push(Event::Open {
+                    conn,
+                    tcp,
+                    addr: *addr,
+                    refused: true,
+                });
+                // A refused socket still takes a slot so that numbering stays
+                // the order of creation attempts.
+                st.open.push(VecDeque::new());
+                Err(
+                    if tcp {
+                        GDErrorKind::SocketConnect
+                    } else {
+                        GDErrorKind::SocketBind
+                    },
+                )
+            }
+            ConnScript::Open(d) => {
+                st.log.push(Event::Open {
+                    conn,
+                    tcp,
+                    addr: *addr,
+                    refused: false,
+                });
+                st.open.push(d.into());
+                Ok(conn)
+            }
+        })
+    })
+}
+
+pub(crate) fn on_send(conn: Option<usize>, addr: &SocketAddr, data: &[u8]) -> Option<GDResult<()>> {
+    let conn = conn?;
+    STATE.with(|s| {
+        let mut guard = s.borrow_mut();
+        let st = guard.as_mut()?;
+        spend(st);
+        let failed = st.send_faults.pop_front().unwrap_or(false);
+        st.log.push(Event::Send {
+            conn,
+            addr: *addr,
+            data: data.to_vec(),
+            failed,
+        });
+        Some(
+            if failed {
+                Err(GDErrorKind::PacketSend.context("scripted send fault"))
+            } else {
+                Ok(())
+            },
+        )
+    })
+}
+
+pub(crate) fn on_receive(conn: Option<usize>, tcp: bool, size: Option<usize>) -> Option<GDResult<Vec<u8>>> {
+    let conn = conn?;
+    STATE.with(|s| {
+        let mut guard = s.borrow_mut();
+        let st = guard.as_mut()?;
+        spend(st);
+        let next = st.open.get_mut(conn).and_then(VecDeque::pop_front);
+        let result = match next {
+            Some(Delivery::Data(mut d)) => {
+                if !tcp {
+                    // recv_from into a buffer of `size` bytes truncates the datagram.
+                    d.truncate(size.unwrap_or(1024));
+                }
+                Some(d)
+            }
+            Some(Delivery::Silence) => None,
+            // Script exhausted: UDP stays silent, a TCP peer has closed.
+            None => {
+                if tcp {
+                    Some(Vec::new())
+                } else {
+                    None
+                }
+            }
+        };
+        st.log.push(Event::Recv {
+            conn,
+            size,
+            got: result.as_ref().map(Vec::len),
+        });
+        Some(result.ok_or_else(|| GDErrorKind::PacketReceive.context("scripted timeout")))
+    })
+}
+
+// ---------------------------------------------------------------------------
+// Public wrappers around crate-private items.
+
+pub use crate::buffer::Buffer as VBuffer;
+pub use crate::utils::{error_by_expected_size, retry_on_timeout, u8_lower_upper};
+
+/// Which string decoder a reader operation uses.
+#[derive(Debug, Clone, Copy, PartialEq, Eq)]
+pub enum Dec {
+    Utf8,
+    Utf8Len,
+    Utf16Le,
+    Utf16Be,
+    #[cfg(feature = "games")]
+    Unreal2,
+}
+
+pub fn read_string_le(b: &mut Buffer<LittleEndian>, d: Dec, until: Option<Vec<u8>>) -> GDResult<String> {
+    read_string_any(b, d, until)
+}
+
+pub fn read_string_be(b: &mut Buffer<BigEndian>, d: Dec, until: Option<Vec<u8>>) -> GDResult<String> {
+    read_string_any(b, d, until)
+}
+
+fn read_string_any<B: byteorder::ByteOrder>(
+    b: &mut Buffer<B>,
+    d: Dec,
+    until: Option<Vec<u8>>,
+) -> GDResult<String> {
+    let one = until.as_ref().map(|u| [u[0]]);
+    let two = until.as_ref().map(|u| [u[0], *u.get(1).unwrap_or(&0)]);
+    match d {
+        Dec::Utf8 => b.read_string::<Utf8Decoder>(one),
+        Dec::Utf8Len => b.read_string::<Utf8LengthPrefixedDecoder>(one),
+        Dec::Utf16Le => b.read_string::<Utf16Decoder<LittleEndian>>(two),
+        Dec::Utf16Be => b.read_string::<Utf16Decoder<BigEndian>>(two),
+        #[cfg(feature = "games")]
+        Dec::Unreal2 => b.read_string::<crate::protocols::unreal2::Unreal2StringDecoder>(one),
+    }
+}
+
+/// Raw decoder call (without `Buffer::read_string`'s guard).
+pub fn decode_raw(d: Dec, data: &[u8], cursor: &mut usize, delim: &[u8]) -> GDResult<String> {
+    match d {
+        Dec::Utf8 => Utf8Decoder::decode_string(data, cursor, [delim[0]]),
+        Dec::Utf8Len => Utf8LengthPrefixedDecoder::decode_string(data, cursor, [delim[0]]),
+        Dec::Utf16Le => Utf16Decoder::<LittleEndian>::decode_string(data, cursor, [delim[0], delim[1]]),
+        Dec::Utf16Be => Utf16Decoder::<BigEndian>::decode_string(data, cursor, [delim[0], delim[1]]),
+        #[cfg(feature = "games")]
+        Dec::Unreal2 => {
+            crate::protocols::unreal2::Unreal2StringDecoder::decode_string(data, cursor, [delim[0]])
+        }
+    }
+}
+
+#[cfg(feature = "games")]
+pub mod mc {
+    use super::*;
+    use crate::games::minecraft::types as t;
+
+    pub fn get_varint(b: &mut Buffer<LittleEndian>) -> GDResult<i32> { t::get_varint(b) }
+    pub fn as_varint(v: i32) -> Vec<u8> { t::as_varint(v) }
+    pub fn get_string(b: &mut Buffer<LittleEndian>) -> GDResult<String> { t::get_string(b) }
+    pub fn as_string(s: &str) -> GDResult<Vec<u8>> { t::as_string(s) }
+}
